@@ -1,5 +1,279 @@
-"""E3 layout tuples (field offset/width/endianness of readers, writers, validator, builder) — filled in by the E3 phase."""
+"""E3 layout tuples: where (base, constant offset, width) each reader / writer / validator / builder touches a
+record, extracted from the MIR by following index expressions back to the base slice, and compared with the
+frozen RFC table tables/rfc_layout.json and with each other (sibling agreement)."""
+import json
+import os
+
+from analysis import facts as F
+from analysis.pkt import Provenance, _const_start
+
+READS = {'<byteorder::BigEndian as byteorder::ByteOrder>::read_u16': 2, '<byteorder::BigEndian as byteorder::ByteOrder>::read_u32': 4,
+         '<byteorder::BigEndian as byteorder::ByteOrder>::read_u64': 8}
+WRITES = {'<byteorder::BigEndian as byteorder::ByteOrder>::write_u16': 2, '<byteorder::BigEndian as byteorder::ByteOrder>::write_u32': 4,
+          '<byteorder::BigEndian as byteorder::ByteOrder>::write_u64': 8}
+BASES = {'rr_iterator::DNSIterable::rdata_slice': 'after-name', 'rr_iterator::DNSIterable::rdata_slice_mut': 'after-name',
+         'parsed_packet::ParsedPacket::packet': 'packet', 'parsed_packet::ParsedPacket::packet_mut': 'packet',
+         'rr_iterator::DNSIterable::name_slice': 'name', 'rr_iterator::DNSIterable::name_slice_mut': 'name'}
+INDEX = ('Index<I>>::index', 'IndexMut<I>>::index_mut', 'Index<I> for [T]>::index', 'IndexMut<I> for [T]>::index_mut',
+         'as std::ops::Deref>::deref', 'as std::ops::DerefMut>::deref_mut')
+
+
+def table():
+    with open(os.path.join(F.VERIF, 'tables', 'rfc_layout.json')) as fh:
+        return json.load(fh)
+
+
+def _range_len(e):
+    """constant length of a Range{a,b} index expression, else None"""
+    if e[0] == 'agg' and e[1] == 'std::ops::Range' and len(e[3]) == 2:
+        a, b = _const_start(e[3][0]), _const_start(e[3][1])
+        if a is not None and b is not None:
+            return b - a
+    return None
+
+
+class Tracer:
+    """Follows a slice operand back to its base, summing constant start offsets; symbolic parts are kept as text."""
+
+    def __init__(self, f, facts):
+        self.f = f
+        self.facts = facts
+        self.defs = F.single_defs(f)
+
+    def trace(self, op, depth=16):
+        """-> (base, const offset or None, [symbolic parts], constant length or None)"""
+        off, sym, length = 0, [], None
+        cur = op
+        for _ in range(depth):
+            if cur.get('k') not in ('copy', 'move'):
+                return ('?', off, sym, length)
+            pl = cur['place']
+            loc = pl['local']
+            fs = F.fields_of(pl)
+            if fs and fs[-1][0] not in (None, '(tuple)'):
+                return ('field:%s.%s' % (fs[-1][0].split('::')[-1], fs[-1][1]), off, sym, length)
+            if 1 <= loc <= self.f['arg_count']:
+                return ('param:%d' % loc, off, sym, length)
+            d = self.defs.get(loc)
+            if d is None:
+                ty = self.f['locals'][loc]
+                if ty.get('k') == 'array':
+                    return ('local-array:%s' % ty.get('s'), off, sym, length)
+                return ('local:%d' % loc, off, sym, length)
+            if d[0] == 'call':
+                t = d[1]
+                p = F.call_path(t) or ''
+                tp = F.call_trait_path(t) or ''
+                for k, v in BASES.items():
+                    if p.split('@')[0] == k or tp == k:
+                        return (v, off, sym, length)
+                if (any(x in p for x in INDEX) or ('Index' in p and (p.endswith('::index') or p.endswith('::index_mut')))) and t['args']:
+                    if len(t['args']) > 1:
+                        e = F.expr(self.f, self.defs, t['args'][1])
+                        c = _const_start(e)
+                        if c is None:
+                            sym.append(_sym(e))
+                        else:
+                            off += c
+                        rl = _range_len(e)
+                        if rl is not None and length is None:
+                            length = rl
+                    cur = t['args'][0]
+                    continue
+                return ('call:' + p.split('::')[-1], off, sym, length)
+            rv = d[1]
+            if rv['k'] in ('use', 'cast'):
+                cur = rv['x']
+                continue
+            if rv['k'] in ('ref', 'rawptr'):
+                p2 = rv['place']
+                ty = self.f['locals'][p2['local']]
+                if not [x for x in p2['proj'] if x['k'] != 'deref'] and ty.get('k') == 'array':
+                    return ('local-array:%s' % ty.get('s'), off, sym, length)
+                cur = {'k': 'copy', 'place': p2}
+                continue
+            return ('?', off, sym, length)
+        return ('?', off, sym, length)
+
+
+def _sym(e):
+    if e[0] == 'agg' and e[3]:
+        return _sym(e[3][0])
+    if e[0] == 'load':
+        lf = F.last_field(e[1])
+        return lf[1] if lf else 'load'
+    if e[0] == 'binop':
+        return '(%s %s %s)' % (_sym(e[2]), e[1], _sym(e[3]))
+    if e[0] == 'const':
+        return str(e[1])
+    if e[0] == 'call':
+        return e[1].split('::')[-1] + '()'
+    if e[0] == 'local':
+        return '_%d' % e[1]
+    return e[0]
+
+
+def tuples(facts, key):
+    """[(rw, base, offset, width, symbolic, site)] for the byte-order accesses, constant-range copies and u8 loads of one body."""
+    f = facts.fns[key]
+    tr = Tracer(f, facts)
+    out = []
+    for bi, b in F.blocks(f):
+        t = b['term']
+        if t['k'] == 'call' and t['callee']['k'] == 'direct':
+            p = F.call_path(t) or ''
+            if p in READS or p in WRITES:
+                base, off, sym, ln = tr.trace(t['args'][0])
+                out.append(('r' if p in READS else 'w', base, off, READS.get(p) or WRITES.get(p), tuple(sym), t['at']))
+            elif p == 'core::slice::<impl [T]>::copy_from_slice':
+                base, off, sym, ln = tr.trace(t['args'][0])
+                sb, so, ss, sl = tr.trace(t['args'][1])
+                out.append(('w', base, off, ln, tuple(sym), t['at']))
+                out.append(('r', sb, so, sl, tuple(ss), t['at']))
+            elif p.endswith('DNSSector::be16_load') or p.endswith('DNSSector::u8_load') or p.endswith('DNSSector::be32_load') or p.endswith('DNSSector::edns_be16_load'):
+                e = F.expr(f, tr.defs, t['args'][1])
+                c = _const_start(e)
+                out.append(('r', 'cursor', c, {'be16_load': 2, 'u8_load': 1, 'be32_load': 4, 'edns_be16_load': 2}[p.split('::')[-1]], () if c is not None else (_sym(e),), t['at']))
+    return out
+
+
+def _fmt(t):
+    return '%s %s+%s%s w=%s' % (t[0], t[1], t[2], ('+' + '+'.join(t[4])) if t[4] else '', t[3])
+
+
+def expect(ctx, rid, facts, cfg, key, want, what):
+    """`want`: list of (rw, base, offset, width); every one must be among the tuples of `key`, and no other access of the
+    same (rw, base) may exist at a different offset/width (no crossed fields)."""
+    f = facts.fn(key)
+    if f is None:
+        ctx.missing(rid, key)
+        return
+    got = tuples(facts, key)
+    gset = {(g[0], g[1], g[2], g[3]) for g in got if not g[4]}
+    for w in want:
+        ok = tuple(w) in gset
+        ctx.instance(rid, '%s: %s  (%s)' % (key.split('@')[0], _fmt((w[0], w[1], w[2], w[3], ())), what), ok=ok, site=f['at'])
+        if not ok:
+            near = [g for g in got if g[0] == w[0] and g[1] == w[1]]
+            ctx.violation(rid, key, '%s-%s+%s' % (w[0], w[1], w[2]),
+                          '%s must %s %d byte(s) at %s+%d (%s); the code %s' % (key.split('@')[0].split('::')[-1], 'read' if w[0] == 'r' else 'write', w[3], w[1], w[2], what,
+                                                                                ('accesses ' + ', '.join(_fmt(g) for g in near)) if near else 'has no such access'),
+                          site=(near[0][5] if near else f['at']), config=cfg)
+
+
+def bit_reader(ctx, rid, facts, cfg, key, off, width, what, write=False):
+    """Bit-exact check: the result of `key` is the big-endian value of bytes [off, off+width) behind the owner name
+    (or, for a setter, exactly those bytes receive the argument) — robust against any rewrite the evaluator can follow."""
+    from analysis.bits import BV, Interp, View, Undecided, TOP
+    f = facts.fn(key)
+    if f is None:
+        ctx.missing(rid, key)
+        return
+    mem = {'R': [BV.sym('r%d_' % i, 8) for i in range(32)]}
+    models = {'DNSIterable::rdata_slice': lambda args, m: View('R', 0), 'DNSIterable::rdata_slice_mut': lambda args, m: View('R', 0)}
+    try:
+        if write:
+            arg = BV.sym('a', 8 * width)
+            r, m2 = Interp(facts.fns, models).run(key, ['SELF', arg], mem)
+            bad = []
+            for i in range(32):
+                exp = BV(arg.bits[8 * (width - 1 - (i - off)):8 * (width - (i - off))]) if off <= i < off + width else mem['R'][i]
+                if not all(g is not TOP and g == e for g, e in zip(m2['R'][i].bits, exp.bits)):
+                    bad.append(i)
+            ok = not bad
+            detail = 'bytes %s differ' % bad
+        else:
+            r, m2 = Interp(facts.fns, models).run(key, ['SELF'], mem)
+            exp = []
+            for i in range(width):
+                exp = mem['R'][off + i].bits + exp     # lsb first: the last byte is the low byte
+            got = r.bits if isinstance(r, BV) else [r]
+            exp = exp + [__import__('analysis.bits', fromlist=['BF']).BF.const(0)] * (len(got) - len(exp))
+            ok = len(got) >= 8 * width and all(g is not TOP and g == e for g, e in zip(got, exp))
+            detail = 'result is %r' % (r,)
+    except Undecided as e:
+        # fall back to the access-tuple check
+        return expect(ctx, rid, facts, cfg, key, [('w' if write else 'r', 'after-name', off, width)], what + ' (tuple check: bit evaluation unsupported: %s)' % e)
+    ctx.instance(rid, '%s: %s bytes [%d,%d) behind the owner name, big-endian  (%s)' % (key.split('@')[0], 'writes' if write else 'returns', off, off + width, what), ok=ok, site=f['at'])
+    if not ok:
+        ctx.violation(rid, key, '%s-after-name+%d' % ('w' if write else 'r', off), '%s must %s the %d-byte big-endian field at offset %d behind the owner name (%s); %s'
+                      % (key.split('@')[0].split('::')[-1], 'write' if write else 'return', width, off, what, detail[:300]), site=f['at'], config=cfg)
 
 
 def check_readers(ctx, facts, cfg, rid):
-    return
+    T = table()['rr']
+    tyo, clo, tto, rdo, hdr = T['type'][0], T['class'][0], T['ttl'][0], T['rdlength'][0], T['rdata'][0]
+    for key in facts.inst_keys('rr_iterator::TypedIterable::rr_type'):
+        bit_reader(ctx, rid, facts, cfg, key, tyo, 2, 'RFC 1035 3.2.1 TYPE')
+    for key in facts.inst_keys('rr_iterator::TypedIterable::rr_class'):
+        bit_reader(ctx, rid, facts, cfg, key, clo, 2, 'RFC 1035 3.2.1 CLASS')
+    for key in facts.inst_keys('rr_iterator::RdataIterable::rr_ttl'):
+        bit_reader(ctx, rid, facts, cfg, key, tto, 4, 'RFC 1035 3.2.1 TTL')
+    for key in facts.inst_keys('rr_iterator::RdataIterable::rr_rdlen'):
+        bit_reader(ctx, rid, facts, cfg, key, rdo, 2, 'RFC 1035 3.2.1 RDLENGTH')
+    for key in facts.inst_keys('rr_iterator::RdataIterable::rr_ip'):
+        expect(ctx, rid, facts, cfg, key, [('r', 'after-name', hdr, 4), ('r', 'after-name', hdr, 16)], 'A / AAAA address right behind the 10-byte header')
+    # the cursor helpers use a symbolic base (offset + const): check the constant part
+    for key, const, what in (("rr_iterator::RRIterator::<'t>::rr_rdlen", rdo, 'RDLENGTH at name_end + 8'),
+                             ("rr_iterator::RRIterator::<'t>::edns_rr_rdlen", table()['option']['length'][0], 'option length at +2')):
+        f = facts.fn(key)
+        if f is None:
+            ctx.missing(rid, key)
+            continue
+        got = tuples(facts, key)
+        ok = any(g[0] == 'r' and g[3] == 2 and g[4] and any(('Add %d)' % const) in s or s.endswith('+ %d' % const) for s in g[4]) for g in got)
+        ctx.instance(rid, '%s: %s' % (key, what), ok=ok, site=f['at'])
+        if not ok:
+            ctx.violation(rid, key, 'const-offset', '%s: expected a 2-byte read at <offset> + %d, found %s' % (key, const, [_fmt(g) for g in got]), site=f['at'], config=cfg)
+    # validator siblings: the offsets handed to be16_load / u8_load by the per-field helpers
+    V = {'dns_sector::DNSSector::rr_type': (tyo, 2), 'dns_sector::DNSSector::rr_class': (clo, 2), 'dns_sector::DNSSector::rr_rdlen': (rdo, 2)}
+    for key, (o, w) in V.items():
+        expect(ctx, rid, facts, cfg, key, [('r', 'cursor', o, w)], 'validator reads the same field as the iterator')
+
+
+def check_writers(ctx, facts, cfg, rid):
+    T = table()['rr']
+    for key in facts.inst_keys('rr_iterator::RdataIterable::set_rr_ttl'):
+        bit_reader(ctx, rid, facts, cfg, key, T['ttl'][0], 4, 'set_rr_ttl writes the field rr_ttl reads', write=True)
+    for key in facts.inst_keys('rr_iterator::RdataIterable::set_rr_ip'):
+        expect(ctx, rid, facts, cfg, key, [('w', 'after-name', T['rdata'][0], 4), ('w', 'after-name', T['rdata'][0], 16)], 'set_rr_ip writes where rr_ip reads')
+
+
+def check_opt(ctx, facts, cfg, rid):
+    T = table()['opt']
+    M = {'dns_sector::DNSSector::opt_rr_max_payload': T['udp_payload'], 'dns_sector::DNSSector::opt_rr_ext_rcode': T['ext_rcode'],
+         'dns_sector::DNSSector::opt_rr_edns_version': T['version'], 'dns_sector::DNSSector::opt_rr_edns_ext_flags': T['flags'],
+         'dns_sector::DNSSector::opt_rr_rdlen': T['rdlength']}
+    for key, (o, w) in M.items():
+        expect(ctx, rid, facts, cfg, key, [('r', 'cursor', o, w)], 'RFC 6891 6.1.2 OPT fixed part, relative to the end of the owner name')
+    O = table()['option']
+    expect(ctx, rid, facts, cfg, 'dns_sector::DNSSector::edns_rr_rdlen', [('r', 'cursor', O['length'][0], 2)], 'RFC 6891 6.1.2 option length')
+
+
+def check_builder(ctx, facts, cfg, rid):
+    T = table()['rr']
+    key = 'synth::gen::RR::new'
+    f = facts.fn(key)
+    if f is None:
+        ctx.missing(rid, key)
+        return
+    got = tuples(facts, key)
+    want = [('w', T['ttl'][0], 4, 'TTL'), ('w', T['class'][0], 2, 'CLASS'), ('w', T['type'][0], 2, 'TYPE'), ('w', T['rdlength'][0], 2, 'RDLENGTH')]
+    for rw, o, w, nm in want:
+        ok = any(g[0] == rw and g[1].startswith('local-array') and g[2] == o and g[3] == w and not g[4] for g in got)
+        ctx.instance(rid, 'RR::new writes %s at header+%d (%d bytes)' % (nm, o, w), ok=ok, site=f['at'])
+        if not ok:
+            ctx.violation(rid, key, 'w-header+%d' % o, 'RR::new must write %s (%d bytes) at offset %d of the 10-byte record header; found %s'
+                          % (nm, w, o, [_fmt(g) for g in got if g[0] == 'w']), site=f['at'], config=cfg)
+    extra = [g for g in got if g[0] == 'w' and g[1].startswith('local-array') and (g[2], g[3]) not in {(o, w) for _, o, w, _ in want}]
+    for g in extra:
+        ctx.violation(rid, key, 'extra-write+%s' % g[2], 'RR::new writes an unexpected header field: %s' % _fmt(g), site=g[5], config=cfg)
+    qkey = 'synth::gen::RR::new_question'
+    Q = table()['question']
+    if facts.fn(qkey):
+        gq = tuples(facts, qkey)
+        for nm, (o, w) in (('QTYPE', Q['qtype']), ('QCLASS', Q['qclass'])):
+            ok = any(g[0] == 'w' and g[1].startswith('local-array') and g[2] == o and g[3] == w and not g[4] for g in gq)
+            ctx.instance(rid, 'RR::new_question writes %s at +%d' % (nm, o), ok=ok, site=facts.fn(qkey)['at'])
+            if not ok:
+                ctx.violation(rid, qkey, 'w-question+%d' % o, 'RR::new_question must write %s at offset %d; found %s' % (nm, o, [_fmt(g) for g in gq]), site=facts.fn(qkey)['at'], config=cfg)
